@@ -60,7 +60,7 @@ def gen_op(rng, kind, p):
   if kind == 'CreateTrial':
     return [kind, {'study': ss(), 'x': rng.randrange(100),
                    'tkind': rng.choice(['plain', 'plain', 'succeeded', 'infeasible', 'active', 'rich']),
-                   'v': rng.randrange(6), 'w': rng.randrange(6)}]
+                   'v': rng.randrange(6), 'w': rng.randrange(6), 'perm': rng.random() < 0.3}]
   if kind == 'SuggestTrials':
     return [kind, {'study': ss(), 'n': rng.choice([1, 1, 2, 2, 3, 4, 5, 5, 8, 12]),
                    'worker': rng.randrange(p.get('workers', 2))}]
@@ -68,12 +68,13 @@ def gen_op(rng, kind, p):
     return [kind, {'study': ss(), 'trial': trial_sel(rng)}]
   if kind == 'AddTrialMeasurement':
     return [kind, {'study': ss(), 'trial': trial_sel(rng), 'v': rng.randrange(10),
-                   'w': rng.randrange(10), 'step': rng.randrange(5)}]
+                   'w': rng.randrange(10), 'step': rng.randrange(5), 'perm': rng.random() < 0.3}]
   if kind == 'CompleteTrial':
     return [kind, {'study': ss(), 'trial': trial_sel(rng),
                    'ckind': rng.choice(['final', 'final', 'final', 'auto', 'infeasible',
                                         'infeasible+final', 'partial-final']),
-                   'v': rng.randrange(6), 'w': rng.randrange(6), 'reason': rng.choice(['bad', 'bad', ''])}]
+                   'v': rng.randrange(6), 'w': rng.randrange(6), 'reason': rng.choice(['bad', 'bad', '']),
+                   'perm': rng.random() < 0.3}]
   if kind == 'UpdateMetadata':
     return [kind, {'study': ss(), 'items': md_items(rng, p.get('md_missing', True))}]
   if kind == 'GetOperation':
